@@ -1,4 +1,5 @@
 import YarlProofs.C10
+import YarlProofs.C08Multi
 /-!
   C10Headline.lean — AUDIT LAYER for property C10.
 
@@ -13,6 +14,13 @@ import YarlProofs.C10
   `a.lt b` = Python's tuple `<` on the keys (`ltParts`, string `<` = `ltStr`: code-point lexicographic, prefix first);
   `a.le b` = `a.lt b || eqKey a = eqKey b`; `a.gt b` = `b.lt a`; `a.ge b` = `b.le a` (the last three are DEFINITIONS of the
   model: Python evaluates `<=`, `>`, `>=` on the key tuples, for which these identities hold).
+  Cache machine (YarlModel/CacheMulti.lean, C08Multi.lean; used only in C10_headline_hash_and_comparisons_after_any_history):
+  `run (yarlMSem e hf) pol ⟨caps, gen⟩ [] ops` = the outputs of the operation sequence `ops` (constructors, accessors
+  `.read`, `.hash h`, `.cmp c h1 h2`, pickling, modifiers, cache clear / configure) on the machine with the per-object
+  `_cache` memo dicts and the LRU caches, `hf` = Python's hash of a 5-tuple of strings (any function), `pol` / `caps` /
+  `gen` = eviction policies and capacities; `valOf (specHandles (yarlMSem e hf) [] ops) h` = the five stored strings of
+  the URL that handle `h` denotes after `ops` in the cache-free specification (`none`: no such object);
+  `cmpUrl c a b` = `a.beq b`, `!a.beq b`, `a.lt b`, `a.le b`, `a.gt b`, `a.ge b` for `c` = eq, ne, lt, le, gt, ge.
 -/
 set_option linter.unusedVariables false
 namespace Yarl
@@ -36,6 +44,41 @@ theorem C10_headline_equal_iff_components (a b : Url) :
 theorem C10_headline_equal_urls_equal_hashes (hash : Parts → Nat) (a b : Url) :
     a.beq b = true → hash (eqKey a) = hash (eqKey b) :=
   C10_hash_coherent hash a b
+
+section CacheMachine
+open Yarl.Cache (Policy)
+open Yarl.MultiCache Yarl.MultiInst
+
+/-- NEW (partly closes GAPS 3 and 4; proved in C08Multi.lean): "equal URLs have equal hashes" also with the MEMOISED
+    hash and `_sort_key`.  In the cache machine — where `__hash__` stores its result under `_cache["hash"]` and the
+    ordering methods read the memoised property `_sort_key` — after ANY operation history `ops`, with any cache
+    capacities and eviction policies, `hash(url)` answers `hf (eqKey u)` and `url1 <op> url2` answers
+    `cmpUrl op u1 u2` for the URLs `u`, `u1`, `u2` the handles denote: both are functions of the five stored strings
+    through `eqKey`; a stale or foreign memo entry can never be observed. -/
+theorem C10_headline_hash_and_comparisons_after_any_history (e : Env) (hf : Parts → Int)
+    (pol : YCache → Policy (YKey e)) (caps : YCache → Nat → Option Nat) (gen : YCache → Nat)
+    (ops : List (Op YCache (YKey e) YMod)) (c : CmpOp) (h1 h2 : Nat) :
+    (run (yarlMSem e hf) pol { caps := caps, gen := gen } [] (ops ++ [.hash h1])).getLast? =
+      some (match valOf (specHandles (yarlMSem e hf) [] ops) h1 with
+            | some p => .value (.hash (hf (eqKey (Url.ofParts p))))
+            | none => .dead) ∧
+    (run (yarlMSem e hf) pol { caps := caps, gen := gen } [] (ops ++ [.cmp c h1 h2])).getLast? =
+      some (match valOf (specHandles (yarlMSem e hf) [] ops) h1, valOf (specHandles (yarlMSem e hf) [] ops) h2 with
+            | some p1, some p2 => .value (.cmp (cmpUrl c (Url.ofParts p1) (Url.ofParts p2)))
+            | _, _ => .dead) :=
+  C08_multi_yarl_hash_cmp e hf pol caps gen ops c h1 h2
+
+/-- … where the six comparison answers of the machine are these functions of the two keys (by definition of `cmpUrl`,
+    `Url.lt`, `Url.le`, `Url.gt`, `Url.ge`; `ltParts` = tuple `<`) -/
+theorem C10_headline_comparisons_from_sort_keys (a b : Url) :
+    cmpUrl .eq a b = decide (eqKey a = eqKey b) ∧ cmpUrl .ne a b = !decide (eqKey a = eqKey b) ∧
+    cmpUrl .lt a b = ltParts (eqKey a) (eqKey b) ∧
+    cmpUrl .le a b = (ltParts (eqKey a) (eqKey b) || decide (eqKey a = eqKey b)) ∧
+    cmpUrl .gt a b = ltParts (eqKey b) (eqKey a) ∧
+    cmpUrl .ge a b = (ltParts (eqKey b) (eqKey a) || decide (eqKey b = eqKey a)) :=
+  C08_multi_yarl_cmp_of_sort_key a b
+
+end CacheMachine
 
 /-! ## Sentence 1c — "and equality is reflexive, symmetric, transitive and never holds against non-URL objects" -/
 
@@ -90,6 +133,16 @@ theorem C10_headline_empty_path_vs_slash :
     (fromParts [] [] [] [] []).beq (fromParts [] [] [47] [] []) = false ∧
     (fromParts [] [] [] [] []).lt (fromParts [] [] [47] [] []) = true := by decide
 
+/-- NEW (GAPS 6, as a counterexample): equal URLs need not print equally — URL('http://h') == URL('http://h/') (first
+    conjunct of the previous theorem) but str gives "http://h" and "http://h/" (same root as F-C07-empty-path; both
+    strings parse back to equal URLs). -/
+theorem C10_headline_equal_urls_may_differ_in_str :
+    let e : Env := ⟨.py, Oracles.empty⟩
+    (fromParts "http".toStr "h".toStr [] [] []).beq (fromParts "http".toStr "h".toStr [47] [] []) = true ∧
+    str e (fromParts "http".toStr "h".toStr [] [] []) = .ok "http://h".toStr ∧
+    str e (fromParts "http".toStr "h".toStr [47] [] []) = .ok "http://h/".toStr := by
+  refine ⟨by decide, by decide +kernel, by decide +kernel⟩
+
 /-
 GAPS:
  1. "never holds against non-URL objects": NOT MODELLED.  `Url.beq` is only defined between two `Url`s; the source's
@@ -99,17 +152,25 @@ GAPS:
     ("http://a:80/" vs "http://a/", see C03_default_port_counterexample), different spellings of an IPv6 host, or
     percent-encoding variants that survived `encoded=True` compare unequal; the property text does not ask for more,
     but "authority … equal" means the netloc TEXT, not (user, password, host, port).
- 3. Hash: the model has no hash function; the theorem is "any function of the key tuple agrees on equal URLs".  That
-    `__hash__` uses exactly this tuple (incl. the "/" substitution) is by construction of `eqKey` from the source, not
-    checked by a generated table; the memoisation of the hash in `_cache["hash"]` is outside (see C08 gap 1).
- 4. `<=`, `>`, `>=` are definitions in the model (`le := lt || key-equality` etc.), not separate transcriptions of
-    `_sort_key <=`: the identities `t1 <= t2 ↔ t1 < t2 ∨ t1 = t2` for Python tuples of str are assumed, not proved
-    (no model of Python tuple comparison other than `ltParts`).  `_sort_key` is the same tuple as `eqKey` in the source (by inspection
-    of `_url.py`; it is a `cached_property`, i.e. one more memo entry for C08), not tied to the model by a generated fact.
+ 3. PARTLY CLOSED by C08_multi_yarl_hash_cmp (C08Multi.lean), see C10_headline_hash_and_comparisons_after_any_history:
+    the memoisation of the hash in `_cache["hash"]` is now modelled (YarlModel/CacheMulti.lean) and proved harmless —
+    after any history `hash(url)` is `hf (eqKey u)`.  Remains open, as before: the model has no hash function; the
+    theorem is "any function of the key tuple agrees on equal URLs".  That `__hash__` uses exactly this tuple (incl.
+    the "/" substitution) is by construction of `eqKey` from the source, not checked by a generated table.
+ 4. PARTLY CLOSED by C08_multi_yarl_hash_cmp / C08_multi_yarl_cmp_of_sort_key (C08Multi.lean), see
+    C10_headline_hash_and_comparisons_after_any_history, C10_headline_comparisons_from_sort_keys: `_sort_key` as a
+    memoised `cached_property` is now an entry of the cache machine, and the comparisons answer `cmpUrl` of the stored
+    parts after any history.  Remains open, as before: `<=`, `>`, `>=` are definitions in the model (`le := lt ||
+    key-equality` etc.), not separate transcriptions of `_sort_key <=`: the identities `t1 <= t2 ↔ t1 < t2 ∨ t1 = t2`
+    for Python tuples of str are assumed, not proved (no model of Python tuple comparison other than `ltParts`).
+    `_sort_key` is the same tuple as `eqKey` in the source (by inspection of `_url.py`), not tied to the model by a
+    generated fact.
  5. String order is `ltStr` on code points; Python compares str by code point as well, so lone surrogates and non-BMP
     characters are ordered consistently — no generated fact ties this to the implementation.
- 6. Interaction with other properties (not C10's text, but commonly expected): `a == b → str(a) == str(b)` is NOT a
-    theorem and is false for '' vs '/' under an authority without query ("http://h" vs "http://h/").
+ 6. CLOSED (as a counterexample) by C10_headline_equal_urls_may_differ_in_str (here; also
+    C07_headline_recompose_fails_for_empty_path_indistinguishable, C07HeadlineMore.lean, for constructor results).
+    Interaction with other properties (not C10's text, but commonly expected): `a == b → str(a) == str(b)` is false
+    for '' vs '/' under an authority without query and fragment ("http://h" vs "http://h/"; F-C07-empty-path).
 -/
 
 end Yarl
